@@ -351,7 +351,7 @@ def parse(text):
     while i < n:
         l = lines[i]
         m = re.match(r'^fn (.+?)\((.*)\) -> (.+) \{$', l)
-        mc = None if m else (re.match(r'^const (.+?promoted\[\d+\]): (.+) = \{$', l) or re.match(r'^const (.+?): (.+?) = \{$', l))
+        mc = None if m else (re.match(r'^const (.+?promoted\[\d+\]): (.+) = \{$', l) or re.match(r'^const (.+): ([^:]+?) = \{$', l))
         if not m and not mc:
             ms = re.match(r'^const (\w+): (\w+) = const (-?\d+)_(\w+);$', l)
             if ms:
